@@ -20,6 +20,7 @@ Line engines `emu`, `emucheck`, `emusame`: the ECMA-48 reference emulator (`Tcel
             `R <w> <h>` the terminal window was resized (`Term.resize`)
             `F`         end of stream (`Term.finish`: an incomplete sequence becomes a complaint)
             `C c1`      8-bit C1 controls on     `C ff`  FF clears the screen (sun)
+            `N <text>`  note for the harness, ignored here
 
 ## Reply of `emu` (the canonical dump; one line, space separated)
 
@@ -50,6 +51,7 @@ Line engines `emu`, `emucheck`, `emusame`: the ECMA-48 reference emulator (`Tcel
 Head and ops as for `emu`.  Tokens (any subset, any order, `cells=` last):
 `size=<w>x<h>`  `cursor=<x>,<y>` | `cursor=hidden` (cursor invisible, position irrelevant) | `cursor=?`
 `wrap=<0|1>`  `pen=<pen>` (each of the six fields may be `?`)  `ground=<0|1>`  `malformed=<count>`  `blocks=<n>`
+`inrange=1` (the cursor is inside the grid)
 `mode.<key>=<value>` for any key of `<modes>`
 `cells=` followed by exactly w*h expected cells: `?` (don't care: locked cell) or `<runes>/<pen>[/<flags>[/<stamp>]]`
 with `?` allowed for any component and any pen field, `.` = default cell.  Blank `-` and a space `32` are the same
@@ -161,6 +163,7 @@ def stepOp (t : Term) (op : String) : Option Term :=
   | ["F"] => some t.finish
   | ["C", "c1"] => some { t with cfg := { t.cfg with c1Controls := true } }
   | ["C", "ff"] => some { t with cfg := { t.cfg with ffClears := true } }
+  | "N" :: _ => some t
   | _ => none
 
 /-- head + ops → final terminal -/
@@ -255,6 +258,8 @@ def checkToken (t : Term) (tok : String) : Option String :=
     else if k == "ground" then (if v == b01 t.endsInGround then none else fail (b01 t.endsInGround))
     else if k == "malformed" then
       (if v == toString t.malformed.length then none else fail (showMalformed t.malformed))
+    else if k == "inrange" then
+      (if (decide (t.cx < t.w) && decide (t.cy < t.h)) == (v == "1") then none else fail s!"{t.cx},{t.cy}/{t.w}x{t.h}")
     else if k == "blocks" then (if v == toString t.blocks then none else fail (toString t.blocks))
     else if k.startsWith "mode." then
       let key := (k.drop 5).toString
